@@ -23,7 +23,7 @@ Traces == JsonDeserialize(IOEnv.TRACE_FILE)
 TraceConfigs == [t \in 1..Len(Traces) |-> Traces[t].cfg]        \* substituted for Configs
 
 VARIABLES tid, i, mismatch
-tvars == <<cid, gpos, dir, pl, has, ai, op, held, tid, i, mismatch>>
+tvars == <<cid, gpos, dir, pl, has, ai, reqs, op, held, tid, i, mismatch>>
 
 TInit == /\ Init /\ tid = cid /\ i = 1 /\ mismatch = <<>>
 
